@@ -122,6 +122,11 @@ def doc_scenarios(tier, seed):
             scs.append(S("Tomato", seed=1, soil_spec=spec, iwc={"wc_type": typ, "method": "Depth", "depth_layer": pts, "value": list(vals)}))
     scs.append(S("Wheat", "Paddy", seed=1, iwc={"wc_type": "Prop", "method": "Depth", "depth_layer": [0.2, 0.5], "value": ["WP", "FC"]}))
     scs.append(S("Wheat", "ac_TunisLocal", seed=1, iwc={"wc_type": "Prop", "method": "Depth", "depth_layer": [0.3, 1.0], "value": ["FC", "WP"]}))
+    # one Soil object used for two models, the second with a deeper-rooting crop (the profile is deepened again; what the model runs on must follow)
+    for soil, first, second in (("SandyLoam", "Tomato", "Maize"), ("Loam", "Wheat", "Maize"), ("Clay", "Potato", "Wheat")):
+        b = S(second, soil, seed=1)
+        b["_prelude"] = {"crop": {"name": first, "planting_date": "04/20", "harvest_date": None}}
+        scs.append(b)
     # compartments thinner than 5 cm that have to be thickened three times for a deep-rooting crop
     scs.append(S("Maize", seed=1, soil_spec={"type": "SandyLoam", "kw": {"dz": [0.04] * 8}}))
     scs.append(S("Wheat", seed=1, soil_spec={"type": "Loam", "kw": {"dz": [0.03] * 6 + [0.1] * 2}}))
